@@ -54,7 +54,8 @@ def doQuery (w : List PN) (srt cons lim : String) (cont : Option String) (around
   let srt? : Option (SortBy ⊕ USort) :=
     if srt == "c" then some (.inl .created) else if srt == "m" then some (.inl .lastMod)
     else if srt == "C" then some (.inr .createdAsc) else if srt == "r" then some (.inr .blobRefAsc) else none
-  let cons? : Option Cons := if cons == "all" then some .all else if cons == "a" then some .tagA else if cons == "b" then some .tagB else none
+  let cons? : Option Cons := if cons == "all" then some .all else if cons == "a" then some .tagA else if cons == "b" then some .tagB
+    else if cons == "t" then some .camliType else if cons == "n" then some .both else none
   let lim? := (intArg lim).bind (fun n => if -2147483648 ≤ n ∧ n ≤ 2147483647 then some n else none)
   let cont? : Option Bytes := match cont with | none => some [] | some c => hexArg c
   let around? : Option (Option Ref) := match around with | none => some none | some a => (refArg a).map some
